@@ -942,14 +942,15 @@ Definition ok76 (g : gclass) : bool :=
   && match g_rec g with RecDefault => true | _ => false end
   && match g_validate g with V76 => true | _ => false end.
 
-Theorem m76_partial g account :
+(* what the code computes for method 76, for every account: remainder 10 is turned into check digit 0 *)
+Theorem m76_value g account :
   ok76 g = true -> forallb is_ascii_digit account = true -> List.length account = 10%nat ->
-  rem_of 2 7 [2; 3; 4; 5; 6; 7]%Z Plain 11 (digs account) <> 10%Z ->
   verdict (validate1 nd tbl 10 g account)
   = Some (existsb (Z.eqb (pos 1 (digs account))) [0; 4; 6; 7; 8; 9]%Z
-          && std 2 7 8 [2; 3; 4; 5; 6; 7]%Z Plain 11 Itself (digs account)).
+          && (let R := rem_of 2 7 [2; 3; 4; 5; 6; 7]%Z Plain 11 (digs account) in
+              (pos 8 (digs account) =? (if (10 <=? R)%Z then 0 else R))%Z)).
 Proof using All.
-  intros H Hd Hl Hrem10. unfold ok76 in H. repeat (apply andb_true_iff in H as [H ?]).
+  intros H Hd Hl. unfold ok76 in H. repeat (apply andb_true_iff in H as [H ?]).
   destruct (g_positions g) as [[pa pb] pc] eqn:Epos. repeat (apply andb_true_iff in H as [H ?]).
   repeat match goal with X : (_ =? _)%Z = true |- _ => apply Z.eqb_eq in X end. subst pa pb pc.
   destruct (g_pos g) eqn:Kpos; try discriminate. destruct (g_adj g) eqn:Kadj; try discriminate.
@@ -1009,10 +1010,23 @@ Proof using All.
   assert (HRr : (0 <= R < 11)%Z) by (apply Z.mod_pos_bound; lia).
   assert (HR : (0 <= std_checksum g R <= 99)%Z) by (unfold std_checksum; rewrite Kmin; lia).
   rewrite (gen_validate g 8 2 7 account account digits Sm R Hadj Hposof ltac:(lia) Hdigits Hsum Hrem HR Hd Hl).
-  unfold std_checksum, reconcile. rewrite Kmin, Krec. cbn [bind verdict]. f_equal.
-  unfold std, expected. fold (rem_of 2 7 [2; 3; 4; 5; 6; 7]%Z Plain 11 (digs account)).
+  unfold std_checksum, reconcile. rewrite Kmin, Krec. cbn [bind verdict]. f_equal. cbv zeta.
   assert (ER : R = rem_of 2 7 [2; 3; 4; 5; 6; 7]%Z Plain 11 (digs account)) by (unfold R, rem_of; rewrite ES; reflexivity).
-  rewrite <- ER in *. replace (R =? 10)%Z with false by lia. replace (10 <=? R)%Z with false by lia. reflexivity.
+  rewrite <- ER. reflexivity.
+Qed.
+
+Theorem m76_partial g account :
+  ok76 g = true -> forallb is_ascii_digit account = true -> List.length account = 10%nat ->
+  rem_of 2 7 [2; 3; 4; 5; 6; 7]%Z Plain 11 (digs account) <> 10%Z ->
+  verdict (validate1 nd tbl 10 g account)
+  = Some (existsb (Z.eqb (pos 1 (digs account))) [0; 4; 6; 7; 8; 9]%Z
+          && std 2 7 8 [2; 3; 4; 5; 6; 7]%Z Plain 11 Itself (digs account)).
+Proof using All.
+  intros H Hd Hl Hrem10. rewrite (m76_value g account H Hd Hl). cbv zeta. f_equal. f_equal.
+  unfold std, expected. fold (rem_of 2 7 [2; 3; 4; 5; 6; 7]%Z Plain 11 (digs account)).
+  set (R := rem_of 2 7 [2; 3; 4; 5; 6; 7]%Z Plain 11 (digs account)) in *.
+  assert (HRr : (0 <= R < 11)%Z) by (unfold R, rem_of; apply Z.mod_pos_bound; lia).
+  replace (R =? 10)%Z with false by lia. replace (10 <=? R)%Z with false by lia. reflexivity.
 Qed.
 
 (* ---- 24 ---------------------------------------------------------------------------------------------------------------- *)
